@@ -5,7 +5,7 @@ from __future__ import annotations
 import ast
 
 from ..cfg import CFG
-from ..core import callee_is, AnalysisError, const_value
+from ..core import delayed_task_of, callee_is, AnalysisError, const_value
 from ..defuse import DefUse, Terms, show, walk_term
 from ..defuse import key as tkey
 from ..effects import (WriterEvents, fs_enumerations, open_calls,
@@ -313,14 +313,12 @@ def _check_sorted_iterator(ctx):
               f"merge_sort reads {show(merged, 160)}", node=ms[0])
     # the write path of every chunk task is an element of the merged list
     tasks = [n for n in ast.walk(f.node) if isinstance(n, ast.Call)
-             and isinstance(n.func, ast.Call)
-             and ast.unparse(n.func.func) == "delayed"]
-    ctx.require(len(tasks) == 1, f"{f.qual}: expected one delayed task")
+             and delayed_task_of(prog, f, n,
+                                 "_save_sorted_metadata_chunks")]
+    ctx.require(len(tasks) == 1, f"{f.qual}: expected one delayed "
+                "_save_sorted_metadata_chunks task")
     task = tasks[0]
     callee = prog.func("mokapot.confidence._save_sorted_metadata_chunks")
-    ctx.require(ast.unparse(task.func.args[0]) ==
-                "_save_sorted_metadata_chunks",
-                f"{f.qual}: chunk task is not _save_sorted_metadata_chunks")
     b = prog.bind(callee, task)
     wp = b.get("chunk_write_path")
     ctx.require(wp is not None, f"{f.qual}: chunk_write_path not bound")
